@@ -195,7 +195,9 @@ def run(chk, replay=None):
     Lib.get()
     chk.assumptions += ["module and table memory = the heap blocks reachable from the MODULE structure (enumerated through the "
                         "private headers), compared over their usable size",
-                        "a temporary modification restored before return is visible only to the concurrent runs of C12"]
+                        "a temporary modification of a caller's operand that is restored before return is seen by the page-protection observer "
+                        "(operands write-protected during the call); module and table memory cannot be write-protected (the library "
+                        "allocates it): for it such a modification is visible only to the concurrent runs of C12"]
     for mod, cfg, role in (("LimbLoops", ("LimbLoops_quick.cfg" if quick else "LimbLoops_thorough.cfg"), "Frame at every step"),
                            ("Normalize", "Normalize_small.cfg", "SourceKept at every step"),
                            ("Pointwise", ("Pointwise_quick.cfg" if quick else "Pointwise_thorough.cfg"), "SourcesKept at every step")):
